@@ -44,8 +44,6 @@ class FBuilt(dsl.Built):
         if k == "v":
             return getattr(self.e, j[1])
         a, b = self.expr(j[1]), self.expr(j[2])
-        if k == "-" and isinstance(a, self.E.Sum) and isinstance(b, (self.E.Expression, float)):
-            self._flags.add("sum-minus")           # Sum.__sub__ with a non-index falls back to __add__
         return FOPS[k](a, b)
 
     def stmt(self, s):
